@@ -668,7 +668,8 @@ func (g *c07Gen) gen(n int) []string {
 var c07Pool = []string{"$a", "$a = 1", "$a = $b", "$b = [$a, x]", "$a = 2, $b = $a", "[$a, $b, x]", "rec($a = 3, $a)", "$a ? ($b = 1) : ($b = 2)", "x", "$b = x + 1", "$a = [$a, $a]", "rec($b, $b = 7), $b", "$c = $a, $a = $b, $b = $c", "[$a = 1, $a = 2, $a]", "$a = 1 + 2", "$b = 2 + 2", "[1 + 1, 2 + 2, $a]",
 	"$a = 1, sp($a = 5, [$a, 7]...)", "sp($b = 2, [$b, $b = 3]...), $b", "sp($a, [$a = 9, $a]...)", "sp(rec(1, 2), [rec(3, 4), $a]...)",
 	"$a = $b = 3", "$a = $b = $a = 1, [$a, $b]", "[$a = $b = 2, $a, $b]", "rec($a = $b = 5, $b), $a", "x ? $a = $b = 7 : 0, $b",
-	"nofn(1)", "x(2)", "rec(1)", "[1, nofn(2)]", "x = 1"}
+	"nofn(1)", "x(2)", "rec(1)", "[1, nofn(2)]", "x = 1",
+	"$a = [], $a", "$b = [], [$b, $a]", "rec($a = [], $a)", "$a = [[]], $a"}
 
 func runC07(w *eng.W) {
 	W = w
@@ -717,7 +718,7 @@ func runC07(w *eng.W) {
 		if !w.Take() {
 			continue
 		}
-		for _, v := range []string{"2.75", "-2.5", "7", "0.001", "2", "12.50", "9007199254740993.5"} {
+		for _, v := range []string{"2.75", "-2.5", "7", "0.001", "2", "12.50", "9007199254740993.5", "5e70", "-1e100", "1.5e-80", "12345678901234567890123e99"} {
 			w.State(1)
 			w.Trans(1)
 			w.Trace(1)
@@ -739,8 +740,8 @@ func runC07(w *eng.W) {
 		}
 		for _, r := range rhs {
 			for cfg := 0; cfg < 5; cfg++ {
-				for _, form := range []string{"%s = %s", "[%s = %s]", "1, (%s = %s)", "$z = (%s = %s)"} {
-					c := TargetCase{Config: cfg, Src: fmt.Sprintf(form, l, r.s), Pure: r.pure}
+				for _, form := range []string{"%s = %s", "[%s = %s]", "1, (%s = %s)", "$z = (%s = %s)", "(%s = %s), 1", "%s = %s, 1", "$z = 1, %s = %s, $z", "[(%s = %s, 2)]"} {
+					c := TargetCase{Config: cfg, Src: fmt.Sprintf(form, l, r.s), Pure: r.pure && !strings.Contains(form, "$z = 1")}
 					w.State(1)
 					w.Trans(1)
 					w.Trace(1)
